@@ -1,4 +1,5 @@
 import JugModel.Props.C11
+import JugModel.Props.LoopBridge
 import JugModel.Props.WorkerBridge
 #print axioms Jug.C11.cleanup_failed_reenables
 #print axioms Jug.C11.dependents_never_start
@@ -19,3 +20,4 @@ import JugModel.Props.WorkerBridge
 #print axioms Jug.C11.publish_needs_normal_return
 #print axioms Jug.WorkerBridge.worker_conforms
 #print axioms Jug.WorkerBridge.worker_scans_all
+#print axioms Jug.LoopBridge.keep_going_completes_of_loop_workers
